@@ -240,6 +240,23 @@ struct JSONUtils {
                 }
 
                 default: {
+                    if (SizeT32(ch) < SizeT32{0x20}) {
+                        // Control characters without a short form: \u00XX
+                        const SizeT32 low = (SizeT32(ch) & SizeT32{0xF});
+
+                        stream.Write((content + offset2), (offset - offset2));
+
+                        stream += JSONotation::BSlashChar;
+                        offset2 = offset;
+                        ++offset2;
+
+                        stream += JSONotation::U_Char;
+                        stream += Char_T(DigitUtils::DigitChar::Zero);
+                        stream += Char_T(DigitUtils::DigitChar::Zero);
+                        stream += Char_T(DigitUtils::DigitChar::Zero + (SizeT32(ch) >> 4U));
+                        stream += Char_T((low < SizeT32{10}) ? (DigitUtils::DigitChar::Zero + low)
+                                                             : (DigitUtils::DigitChar::Seven + low));
+                    }
                 }
             }
 
